@@ -94,6 +94,10 @@ FamilyProps(fam) ==
 \* outside the numeric envelope (DESIGN 2.4): a result within a factor 2^16 of the largest finite number of the
 \* element type may overflow in a legitimate intermediate step - such elements are not judged
 NearOverflow(el, ref) == QLt(QPow2(IF el = "f32" THEN 111 ELSE 1007), QAbs(ref))
+\* ... and so are elements whose INTERMEDIATE terms reach that size although the result does not (a far query on an
+\* axis in tiny units: the terms of the end polynomial cancel).  The tolerance is eps x (a bound of those terms), so
+\* the test is on the tolerance itself.
+BeyondEnvelope(el, tol) == QLt(QMul(Eps(el), QPow2(IF el = "f32" THEN 111 ELSE 1007)), tol)
 
 \* the property that states which VALUE an in-range query returns: a rejected / panicking in-range call violates it too
 ValueProp(sk) == CASE sk = "Linear" -> "C01" [] sk = "Spline" -> "C02" [] sk = "Bilinear" -> "C04" [] OTHER -> "C05"
@@ -295,7 +299,7 @@ JudgeLinElem(o, lane, qb, q, obsb) ==
                         ELSE Line(o.x[i], y1, o.x[i + 1], y2, q)
                  tau == Tau(o.x[i], o.x[i + 1], q)
                  tol == IF o.el \in {"i32", "i64"} THEN Q0 ELSE TolLin(o.el, y1, y2, ref, tau)
-                 good == NearOverflow(o.el, ref) \/ (IsFin(obs) /\ QLe(QAbs(QSub(obs, ref)), tol))
+                 good == NearOverflow(o.el, ref) \/ BeyondEnvelope(o.el, tol) \/ (IsFin(obs) /\ QLe(QAbs(QSub(obs, ref)), tol))
                  inr == InRange(o.x, q)
              IN [ok |-> good,
                  class |-> IF ~inr THEN "extrap" ELSE IF q = o.x[i] \/ q = o.x[i + 1] THEN "knot" ELSE "inner",
@@ -320,7 +324,7 @@ JudgeSplElem(o, lane, qb, q, obsb) ==
             tau == Tau(o.x[i], o.x[i + 1], qq)
             tol == IF wrap THEN QAdd(TolSpline(o.el, sp, tau), TolWrap(o.el, sp, o.x, q)) ELSE TolSpline(o.el, sp, tau)
             obs == QDecode(o.el, obsb)
-            good == NearOverflow(o.el, ref) \/ (IsFin(obs) /\ QLe(QAbs(QSub(obs, ref)), tol))
+            good == NearOverflow(o.el, ref) \/ BeyondEnvelope(o.el, tol) \/ (IsFin(obs) /\ QLe(QAbs(QSub(obs, ref)), tol))
         IN  [ok |-> good,
              class |-> (IF wrap THEN "wrap" ELSE IF ~inr THEN "extrap" ELSE IF q = o.x[i] \/ q = o.x[i + 1] THEN "knot" ELSE "inner"),
              props |-> (IF wrap THEN {"C07"} ELSE IF ~inr THEN {"C06"} ELSE {"C02", "C03"}) \cup (IF Has(o, "poly") THEN {"C16"} ELSE {}),
@@ -516,7 +520,7 @@ JudgeBilElem(o, lane, qxb, qyb, qx, qy, obsb) ==
             ty == Tau(o.y[j], o.y[j + 1], qy)
             tol == TolBil(o.el, zs, ref, tx, ty)
             inr == InRange(o.x, qx) /\ InRange(o.y, qy)
-            good == NearOverflow(o.el, ref) \/ (IsFin(obs) /\ QLe(QAbs(QSub(obs, ref)), tol))
+            good == NearOverflow(o.el, ref) \/ BeyondEnvelope(o.el, tol) \/ (IsFin(obs) /\ QLe(QAbs(QSub(obs, ref)), tol))
             onx == qx = o.x[i] \/ qx = o.x[i + 1]
             ony == qy = o.y[j] \/ qy = o.y[j + 1]
         IN  [ok |-> good,
